@@ -118,6 +118,11 @@ impl OpSpec {
             (False, Val::Bool(b)) => Some(!*b),
             (True | False, _) => Some(false),
             (Equals(s), Val::Str(x)) => Some(s == x),
+            // numeric / datetime values against a string: the string must denote the same number / instant
+            // (the STAMQL documentation compares quoted literals with typed values this way)
+            (Equals(s), Val::Int(x)) => Some(s.parse::<i64>().ok() == Some(*x)),
+            (Equals(s), Val::Float(x)) => Some(s.parse::<f64>().map(|f| f == *x).unwrap_or(false)),
+            (Equals(s), Val::Dt(x)) => Some(chrono::DateTime::parse_from_rfc3339(s).map(|d| d == dt(x)).unwrap_or(false)),
             (Equals(_), _) => None,
             (EqualsInt(i), Val::Int(x)) => Some(i == x),
             (Gt(i), Val::Int(x)) => Some(x > i),
@@ -306,7 +311,7 @@ impl Property for C10 {
     fn assumptions(&self) -> Vec<String> {
         vec![
             "NaN is not generated (NaN != NaN makes 'same value' undefined)".into(),
-            "cross-type comparisons (integer operator on float value, Equals(string) on non-string values, ...) are don't-care for the reference test; they are still checked differentially (search path vs DataValue::test)".into(),
+            "cross-type comparisons (integer operator on float value, Equals(string) on bool/null/list values, ...) are don't-care for the reference test; they are still checked differentially (search path vs DataValue::test). Equals(string) against int/float/datetime values is defined: the string must parse to the same number / instant".into(),
             "result order is not part of the claim: results are compared as sets, duplicates are reported".into(),
         ]
     }
